@@ -112,6 +112,18 @@ pub fn present(out: &mut Out, rng: &mut Rng, count: usize) {
         let s = pick_schema(rng, i);
         let mut doc = gen::rand_doc(rng, &s, &DocOpts { max_tags: 16, ..Default::default() });
         for d in doc.iter_mut() { plain(d); }
+        // explicit size widths on masters (wide enough for their bodies): Full(width) must equal Start(width), children, End
+        {
+            let lay = gen::layout(&doc);
+            let flat0 = gen::flat_index(&doc);
+            for (k, f) in flat0.iter().enumerate() {
+                // (root-level masters only: a master nested in a Full item cannot carry options of its own)
+                if f.is_master && f.path.len() == 1 && rng.chance(2, 3) {
+                    let w = *rng.pick(&[2usize, 2, 3, 4, 8]);
+                    if (lay[k].size as u64) < (1u64 << (7 * w)) - 1 { gen::node_mut(&mut doc, &f.path).width = w; }
+                }
+            }
+        }
         let flat = gen::flat_index(&doc);
         let masters: Vec<Vec<usize>> = flat.iter().filter(|f| f.is_master).map(|f| f.path.clone()).collect();
         if masters.is_empty() { continue; }
